@@ -63,7 +63,7 @@ class Scenario:
 
     def __init__(self, mt, rms=RMS):
         self.rms = rms
-        self.cfg = {'cap': 4, 'handles': 1, 'mt': mt, 'rmin': rms * MS, 'rmax': 2 * rms * MS}
+        self.cfg = {'cap': 64, 'handles': 1, 'mt': mt, 'rmin': rms * MS, 'rmax': 2 * rms * MS}   # cap: never fills (a full queue would block the script's own calls while the task is held)
         self.sim = cl.Sim(self.cfg)
         self.h = []               # harness steps
         self.m = []               # model steps
@@ -238,7 +238,7 @@ class Scenario:
 
     def finish(self):
         self.h.append('sleep:60')
-        return (f'cap=4 mt={self.cfg["mt"]} rmin={self.rms} rmax={2 * self.rms} | ' + ' '.join(self.h), (self.cfg, self.m))
+        return (f'cap=64 mt={self.cfg["mt"]} rmin={self.rms} rmax={2 * self.rms} | ' + ' '.join(self.h), (self.cfg, self.m))
 
 
 def gen_loopback(r, n):
@@ -447,7 +447,7 @@ class SerialScenario(Scenario):
             tmo = TMO_SERVED if (s.ph == 'Idle' and self.serving) else TMO
             ev = [('S', i, 'r', tmo * MS, 'f')]
             if s.ph == 'Idle':
-                ev.append(('F', 0, 'g') if self.serving else ('T', tmo * MS))
+                ev.append(('F', s.txid, 'g') if self.serving else ('T', tmo * MS))     # the tx label only steers the replica; RTU frames carry none
             elif s.ph == 'Waiting':
                 ev += self.retry_events()
             self._do([f'S:{i}:{tmo}'], ev)
